@@ -73,6 +73,14 @@ class _Unsupported(Exception):
     pass
 
 
+def _is_num_const(e):
+    return isinstance(e, ast.Constant) or (isinstance(e, ast.UnaryOp) and isinstance(e.op, ast.USub) and isinstance(e.operand, ast.Constant) and isinstance(e.operand.value, (int, float)) and not isinstance(e.operand.value, bool))
+
+
+def _num_const(e):
+    return e.value if isinstance(e, ast.Constant) else -e.operand.value
+
+
 def _const_truth(e):
     """truth value of a test that is a constant, or a comparison / negation / conjunction of constants; None otherwise"""
     if isinstance(e, ast.Constant) and (isinstance(e.value, (bool, int, str)) or e.value is None):
@@ -80,8 +88,8 @@ def _const_truth(e):
     if isinstance(e, ast.UnaryOp) and isinstance(e.op, ast.Not):
         r = _const_truth(e.operand)
         return None if r is None else not r
-    if isinstance(e, ast.Compare) and len(e.ops) == 1 and isinstance(e.left, ast.Constant) and isinstance(e.comparators[0], ast.Constant):
-        a, b = e.left.value, e.comparators[0].value
+    if isinstance(e, ast.Compare) and len(e.ops) == 1 and _is_num_const(e.left) and _is_num_const(e.comparators[0]):
+        a, b = _num_const(e.left), _num_const(e.comparators[0])
         op = e.ops[0]
         if isinstance(op, (ast.Is, ast.Eq)):
             return a is b if isinstance(op, ast.Is) and (a is None or b is None) else a == b
@@ -121,6 +129,12 @@ def _split_conditional(st):
     if isinstance(st, ast.Assign) and isinstance(st.value, ast.IfExp):
         e = st.value
         return ast.If(test=e.test, body=[ast.Assign(targets=st.targets, value=e.body)], orelse=[ast.Assign(targets=st.targets, value=e.orelse)])
+    if isinstance(st, ast.Assign) and isinstance(st.value, ast.Call) and len(st.value.args) == 1 and isinstance(st.value.args[0], ast.IfExp) and not st.value.keywords \
+            and isinstance(st.value.func, (ast.Attribute, ast.Name)) and not any(isinstance(x, (ast.Call, ast.Subscript)) for x in ast.walk(st.value.func)):
+        # x = acc.concat(a if c else b): the callee expression is a plain (dotted) name, so evaluating the test first changes nothing
+        e = st.value.args[0]
+        mk = lambda a: ast.Assign(targets=st.targets, value=ast.Call(func=st.value.func, args=[a], keywords=[]))  # noqa: E731
+        return ast.If(test=e.test, body=[mk(e.body)], orelse=[mk(e.orelse)])
     if isinstance(st, ast.AugAssign) and isinstance(st.value, ast.IfExp):
         e = st.value
         return ast.If(test=e.test, body=[ast.AugAssign(target=st.target, op=st.op, value=e.body)], orelse=[ast.AugAssign(target=st.target, op=st.op, value=e.orelse)])
@@ -233,6 +247,12 @@ def _stmt(st, live, out):
         if st.finalbody:
             res = _block(st.finalbody, res, out)
         return res
+    if isinstance(st, ast.For) and isinstance(st.iter, (ast.Tuple, ast.List)) and 0 < len(st.iter.elts) <= 4 and isinstance(st.target, ast.Name) and not st.orelse \
+            and not any(isinstance(x, (ast.Break, ast.Continue, ast.Starred)) for b in st.body + [st.iter] for x in ast.walk(b)):
+        # a loop over a written-out tuple is its unrolling
+        for e in st.iter.elts:
+            live = _block([ast.copy_location(ast.Assign(targets=[ast.Name(id=st.target.id, ctx=ast.Store())], value=e), st)] + list(st.body), live, out)
+        return live
     if isinstance(st, (ast.For, ast.While)) and not any(isinstance(x, (ast.Return, ast.Raise)) for b in st.body for x in ast.walk(b)):
         # a loop that cannot leave the function: what it calls is recorded (as possibly executed), what it assigns becomes unknown
         for p in live:
